@@ -448,7 +448,8 @@ def run(ctx):
         "C15_consistent_knight_king": "for knight and king un-moves the move is legal in the restored position by the FIDE spec (full consistency for these classes)",
         "C15_nodup": "proved for every well-formed position (WF): genMoves has no duplicates; C15_nodup_raw for the raw reverse move list",
         "C15_consistent_nonpawn": "C15_consistent_statement for every un-move of queen/rook/bishop/knight/king that is not an un-castling: legal by the FIDE spec in the restored position and back to Q",
-        "statements_only": ["C15_consistent_statement (open: pawn un-moves, un-promotions and un-castlings; decided by the finder)"]}
+        "C15_consistent_pawn": "C15_consistent_statement for every pawn un-move (push, double push, capture, e.p. capture) and every un-promotion, Q in the domain WFrev",
+        "statements_only": ["C15_consistent_statement (open: un-castlings; decided by the finder)"]}
 
     if not (proof_broken or disagreements or flagged or spec_flagged or crashed):
         return
